@@ -109,6 +109,16 @@ func (m c16) Run(ctx *core.Ctx) {
 			if r.IntN(2) == 0 {
 				cs.Input = core.S(gen.Pick(r, []string{"http://h/?", "a://h/?", "a:p?", "https://u:p@h:1/p?"}) + gen.QueryString(r) + gen.Pick(r, []string{"", "#f", "#"}))
 				cs.HasBase = false
+			} else if r.IntN(4) == 0 {
+				// long queries with few distinct names (stability beyond small-slice fast paths)
+				var sb strings.Builder
+				sb.WriteString(gen.Pick(r, []string{"http://h/?", "a://h/?"}))
+				k := 13 + r.IntN(40)
+				for j := 0; j < k; j++ {
+					fmt.Fprintf(&sb, "%s=%d&", gen.Pick(r, []string{"a", "b", "c", "b", "aa"}), j)
+				}
+				cs.Input = core.S(sb.String())
+				cs.HasBase = false
 			}
 		case "default-scheme":
 			cs.Config = []string{gen.Pick(r, []string{"defaultscheme:http", "defaultscheme:https", "defaultscheme:a", "defaultscheme:file", "defaultscheme:ws"})}
